@@ -9,6 +9,10 @@
 use rust_dsymbols::util::cutsets::{
     min_edge_cut, min_edge_cut_undirected, min_vertex_cut, min_vertex_cut_undirected,
 };
+use rust_dsymbols::delaney3d::pseudo_toroidal_cover;
+use rust_dsymbols::dsets::DSet;
+use rust_dsymbols::dsyms::PartialDSym;
+use rust_dsymbols::simplify::simplify;
 use std::collections::BTreeSet;
 use std::panic::{catch_unwind, AssertUnwindSafe};
 use verif_harness::{enc_list, Ctx, Rng};
@@ -340,6 +344,73 @@ fn skeleton_network(rng: &mut Rng) -> (Vec<E>, usize, usize) {
     (es, source, sink)
 }
 
+/// The networks `simplify.rs::network_cut` hands to `min_vertex_cut_undirected`, rebuilt
+/// here from the public D-set API (re-statement of the private `make_skeleton` and
+/// `network_edges`): vertices = (1,2)-orbits, edges = (0,2)-orbits as (min,max) pairs
+/// (loops possible), `source = #vertices`, `sink = source + 1`, source joined to the
+/// vertices of the face of `d` (edge mode: of `d` and of `op(2,d)`), sink to the
+/// vertices of the face of `op(3,d)`.
+fn tile_networks<T: DSet>(ds: &T) -> Vec<(Vec<E>, usize, usize)> {
+    let n = ds.size();
+    let reps = ds.orbit_reps([1, 2], 1..=n);
+    let mut idx = vec![0usize; n + 1];
+    for (i, &d) in reps.iter().enumerate() {
+        for e in ds.orbit([1, 2], d) {
+            idx[e] = i;
+        }
+    }
+    let skel: BTreeSet<E> = ds
+        .orbit_reps([0, 2], 1..=n)
+        .iter()
+        .map(|&d| (idx[d], idx[ds.op(0, d).unwrap()]))
+        .map(|(a, b)| (a.min(b), a.max(b)))
+        .collect();
+    let source = idx.iter().cloned().max().unwrap_or(0) + 1;
+    let sink = source + 1;
+    let mut out = vec![];
+    let mut push = |d: usize, edge_mode: bool| {
+        let mut vin: BTreeSet<usize> = ds.orbit([0, 1], d).iter().map(|&e| idx[e]).collect();
+        if edge_mode {
+            vin.extend(ds.orbit([0, 1], ds.op(2, d).unwrap()).iter().map(|&e| idx[e]));
+        }
+        let vout: BTreeSet<usize> =
+            ds.orbit([0, 1], ds.op(3, d).unwrap()).iter().map(|&e| idx[e]).collect();
+        let mut es: Vec<E> = skel.iter().cloned().collect();
+        es.extend(vin.iter().map(|&v| (source, v)));
+        es.extend(vout.iter().map(|&v| (v, sink)));
+        out.push((es, source, sink));
+    };
+    for d in ds.orbit_reps([0, 1, 3], 1..=n) {
+        push(d, false);
+    }
+    for d in ds.orbit_reps([0], 1..=n) {
+        if ds.r(2, 3, d) == Some(3) {
+            push(d, true);
+        }
+    }
+    out
+}
+
+const TILINGS: [&str; 17] = [
+    "<1.4:1 3:1,1,1,1:4,3,4>",
+    "<2.1:2 3:1 2,1 2,1 2,2:3 3,3 4,4>",
+    "<513.5:2 3:2,1 2,1 2,2:4,2 4,6>",
+    "<513.8:2 3:2,1 2,1 2,2:6,2 3,6>",
+    "<3.3:3 3:1 2 3,1 2 3,1 3,2 3:3 3 4,4 4,3>",
+    "<167.3:3 3:1 2 3,1 3,2 3,1 2 3:3 4,3,4 6>",
+    "<184.4:3 3:1 2 3,1 3,2 3,1 3:4 6,3,3>",
+    "<23.14:4 3:1 2 3 4,1 2 4,1 3 4,2 3 4:3 3 8,4 3,3 4>",
+    "<71.3:4 3:1 2 3 4,1 2 4,1 3 4,2 4:3 3 6,3 3,4>",
+    "<514.7:4 3:2 4,1 2 3 4,1 2 3 4,3 4:4 4,2 4 4 3,4 4>",
+    "<553.3:4 3:2 4,1 2 3 4,3 4,2 4:4 6,2 6,4>",
+    "<45.2:5 3:1 2 3 5,1 2 4 5,1 3 4 5,2 3 4 5:3 3 3,3 3 3,6 4 4>",
+    "<45.7:5 3:1 2 3 5,1 2 4 5,1 3 4 5,2 3 4 5:3 3 3,4 3 3,6 3 3>",
+    "<45.12:5 3:1 2 3 5,1 2 4 5,1 3 4 5,2 3 4 5:3 3 6,4 3 3,3 4 4>",
+    "<54.2:5 3:1 2 3 5,1 2 4 5,1 3 5,2 3 4 5:3 3 3,3 4,3 6>",
+    "<54.4:5 3:1 2 3 5,1 2 4 5,1 3 5,2 3 4 5:3 3 3,4 4,3 4>",
+    "<222.77:5 3:1 2 4 5,1 3 5,2 3 4 5,1 5 4:4 12,3 2,3 4>",
+];
+
 fn main() {
     let mut ctx = Ctx::from_args();
     let th = ctx.thorough();
@@ -389,16 +460,46 @@ fn main() {
         }
     }
 
-    // (3) thorough: every simple digraph on 5 vertices through the directed entry points
-    if th {
-        let max_edges = std::env::var("C19_MAX5").ok().and_then(|s| s.parse().ok()).unwrap_or(20u32);
+    // (3) every simple digraph on 5 vertices through the directed entry points
+    //     (quick: those with at most 7 edges; thorough: all 2^20 - 1), and, thorough only,
+    //     every simple digraph on 6 vertices with at most 5 edges
+    {
+        let max_edges = if th { 20 } else { 7 };
         for mask in 1..(1u64 << 20) {
             if mask.count_ones() > max_edges {
                 continue;
             }
-            let es = digraph(mask, &[0, 1, 2, 3, 4]);
-            batch(&mut ctx, Kind::Ec, &es, "exh5");
-            batch(&mut ctx, Kind::Vc, &es, "exh5");
+            if !ctx.peek_mine() {
+                ctx.skip();
+            } else {
+                batch(&mut ctx, Kind::Ec, &digraph(mask, &[0, 1, 2, 3, 4]), "exh5");
+            }
+            if !ctx.peek_mine() {
+                ctx.skip();
+            } else {
+                batch(&mut ctx, Kind::Vc, &digraph(mask, &[0, 1, 2, 3, 4]), "exh5");
+            }
+        }
+    }
+    if th {
+        // Gosper's hack: all 30-bit masks with exactly k bits
+        for k in 1..=5u32 {
+            let mut mask: u64 = (1 << k) - 1;
+            while mask < (1u64 << 30) {
+                if !ctx.peek_mine() {
+                    ctx.skip();
+                } else {
+                    batch(&mut ctx, Kind::Ec, &digraph(mask, &[0, 1, 2, 3, 4, 5]), "exh6-le5");
+                }
+                if !ctx.peek_mine() {
+                    ctx.skip();
+                } else {
+                    batch(&mut ctx, Kind::Vc, &digraph(mask, &[0, 1, 2, 3, 4, 5]), "exh6-le5");
+                }
+                let c = mask & mask.wrapping_neg();
+                let r = mask + c;
+                mask = (((r ^ mask) >> 2) / c) | r;
+            }
         }
     }
 
@@ -451,6 +552,29 @@ fn main() {
             single(&mut ctx, Kind::Ecu, &es, s, t, "skeleton");
             single(&mut ctx, Kind::Vc, &es, s, t, "skeleton");
             single(&mut ctx, Kind::Ec, &es, s, t, "skeleton");
+        }
+    }
+
+    // (7) the genuine tile-skeleton networks of simplify.rs::network_cut, rebuilt from the
+    //     public API for the symbols of the repository's simplify test: the symbol itself,
+    //     its pseudo-toroidal cover and the simplified cover
+    let nsym = if th { TILINGS.len() } else { 7 };
+    for src in &TILINGS[..nsym] {
+        let ds: PartialDSym = src.parse().unwrap();
+        let mut nets = tile_networks(&ds);
+        if let Some(cov) = pseudo_toroidal_cover(&ds) {
+            nets.extend(tile_networks(&cov));
+            if let Some(simp) = simplify(&cov) {
+                nets.extend(tile_networks(&simp));
+            }
+        }
+        let mut seen: BTreeSet<(Vec<E>, usize, usize)> = BTreeSet::new();
+        for (es, s, t) in nets {
+            if !seen.insert((es.clone(), s, t)) {
+                continue;
+            }
+            single(&mut ctx, Kind::Vcu, &es, s, t, "skeleton-real");
+            single(&mut ctx, Kind::Ecu, &es, s, t, "skeleton-real");
         }
     }
     ctx.finish();
